@@ -751,7 +751,7 @@ Proof.
   destruct (bool_decide (p = "")); (eapply (Q_kv s); [reflexivity|reflexivity|reflexivity| | | |exact HQ]; cbn).
   - rewrite !dom_insert. set_solver.
   - intros _. right. rewrite lookup_insert. eauto.
-  - intros H. left. exact H.
+  - intros H. left. eapply ne_sub; [|exact H]. apply map_filter_subseteq.
   - rewrite !dom_insert. set_solver.
   - intros _. right. rewrite lookup_insert. eauto.
   - intros _. right. rewrite lookup_insert_ne by discriminate. rewrite lookup_insert. eauto.
